@@ -96,7 +96,9 @@ pub fn budget_drive(args: &[String]) {
         w.line(json!({"e": "Reset", "case": id, "profile": profile}));
         // reference run
         w.begin(id, &pj);
-        let (ev, out0, dig0) = match guarded(|| run_with_budget(&p, &compiled, 1_000_000_000)) {
+        // programs that need more than 200 000 instructions are not swept (see below), so the reference run does not have
+        // to be able to run longer than that either: a generated loop that never ends is cut off here
+        let (ev, out0, dig0) = match guarded(|| run_with_budget(&p, &compiled, 1_000_000)) {
             Ok(x) => x,
             Err(msg) => {
                 w.end(json!({"e": "Panic", "case": id, "msg": msg, "n": "reference"}));
@@ -104,13 +106,14 @@ pub fn budget_drive(args: &[String]) {
             }
         };
         let k: u64 = ev.iter().filter(|e| matches!(e, Event::Instr { .. })).count() as u64;
+        if k > 200_000 {
+            w.end(json!({"e": "Note", "case": id, "k": k, "skipped": "needs more than 200000 instructions"}));
+            continue;
+        }
         for r in budget_events(&ev, &out0, &dig0) {
             w.line(r);
         }
         w.end(json!({"e": "Note", "case": id, "k": k}));
-        if k > 200_000 {
-            continue;
-        }
         // swept budgets
         let mut budgets: Vec<u64> = vec![0, 1, 2, k.saturating_sub(1), k, k + 1, k + 2, k / 2, k / 3 + 1, 2 * k + 5];
         while budgets.len() < sweep {
